@@ -17,6 +17,10 @@ class Injected(Exception):
     pass
 
 
+# route codes handed out by make_tests (stream suite): distinct, the same string for all, or None for all
+ROUTE_OF = [lambda w: str(w), lambda w: "0", lambda w: None]
+
+
 class SubSuite:
     def __init__(self, sched, w, ntests, broken, record):
         self.sched, self.w, self.ntests, self.broken, self.record = sched, w, ntests, broken, record
@@ -97,7 +101,7 @@ class CallerStream(doubles.StreamResult):
         super().status(**kw)
 
 
-def run_suite(stream, nworkers, t0, t1, broken, fkind, fpos, schedule):
+def run_suite(stream, nworkers, t0, t1, broken, fkind, fpos, schedule, routes=0):
     """fkind: 0 none; 1 caller's result raises at its fpos-th call; 2 make_tests raises after yielding fpos
     sub-suites; 3 KeyboardInterrupt out of the caller's fpos-th queue.get()."""
     pos = [0]
@@ -118,7 +122,7 @@ def run_suite(stream, nworkers, t0, t1, broken, fkind, fpos, schedule):
         for w, s in enumerate(subs):
             if fkind == 2 and w == fpos:
                 raise Injected("make_tests failed after %d sub-suites" % w)
-            yield (s, str(w)) if stream else s
+            yield (s, ROUTE_OF[routes](w)) if stream else s
         if fkind == 2 and fpos >= nworkers:
             raise Injected("make_tests failed after all sub-suites")
 
@@ -220,13 +224,17 @@ def run_suite(stream, nworkers, t0, t1, broken, fkind, fpos, schedule):
         for w in range(nworkers):
             want_ids = ["w%d.t%d" % (w, n) for n in range(ntests[w])]
             if stream:
-                evs = [e for e in result._events if e[0] == "status" and e.route_code == str(w)]
+                rc = ROUTE_OF[routes](w)
+                evs = [e for e in result._events if e[0] == "status" and e.route_code == rc
+                       and (routes == 0 or (e.test_id or "").startswith("w%d." % w) or (e.test_id or "").startswith("broken-runner"))]
                 got = [(e.test_id, e.test_status) for e in evs if e.file_name is None]
                 want = []
                 for n, i in enumerate(want_ids):
                     want += [(i, "inprogress"), (i, ["success", "fail"][n % 2])]
                 if broken == w + 1:
-                    want += [("broken-runner-'%d'" % w, "inprogress"), ("broken-runner-'%d'" % w, "fail")]
+                    want += [("broken-runner-'%s'" % (rc,), "inprogress"), ("broken-runner-'%s'" % (rc,), "fail")]
+                elif routes:
+                    got = [g for g in got if not g[0].startswith("broken-runner")]
                 if got != want:
                     problems.append("stream events of worker %d: %r, expected %r" % (w, got, want))
                 if any(e.timestamp is None for e in evs):
@@ -241,7 +249,7 @@ def run_suite(stream, nworkers, t0, t1, broken, fkind, fpos, schedule):
                 if got != want:
                     problems.append("events of worker %d: %r, expected %r" % (w, got, want))
         if stream:
-            others = [e for e in result._events if e[0] == "status" and e.route_code not in [str(w) for w in range(nworkers)]]
+            others = [e for e in result._events if e[0] == "status" and e.route_code not in [ROUTE_OF[routes](w) for w in range(nworkers)]]
             if others:
                 problems.append("events with an unexpected route code: %r" % (others[:2],))
         else:
@@ -268,7 +276,8 @@ def run_suite(stream, nworkers, t0, t1, broken, fkind, fpos, schedule):
 def _finished_before_abort(stream, result, w, ntests, broken):
     """True when worker w's events had all been delivered before the abort (it may have been joined already)."""
     if stream:
-        evs = [e for e in result._events if e[0] == "status" and e.route_code == str(w) and e.file_name is None]
+        evs = [e for e in result._events if e[0] == "status" and e.file_name is None
+               and ((e.test_id or "").startswith("w%d." % w) or (e.test_id or "").startswith("broken-runner"))]
         return len(evs) >= 2 * ntests[w] + (2 if broken == w + 1 else 0)
     stops = [1 for (_t, n, i) in result.tlog if n == "stopTest" and i and (i.startswith("w%d." % w) or i == "broken-runner")]
     return len(stops) >= ntests[w] + (1 if broken == w + 1 else 0)
@@ -276,8 +285,9 @@ def _finished_before_abort(stream, result, w, ntests, broken):
 
 def h_suite(stream: int, nworkers: int, t0: int, t1: int, broken: int, fkind: int, fpos: int,
             s0: int, s1: int, s2: int, s3: int, s4: int, s5: int, s6: int, s7: int, s8: int, s9: int,
-            s10: int, s11: int, s12: int, s13: int, depth: int) -> bool:
+            s10: int, s11: int, s12: int, s13: int, depth: int, routes: int) -> bool:
     """
+    pre: 0 <= routes < 3
     pre: 0 <= stream < 2 and 1 <= nworkers <= 2 and 0 <= t0 <= 2 and 0 <= t1 <= 2 and 0 <= broken <= 2
     pre: 0 <= fkind < 4 and 0 <= fpos < 12 and 0 <= depth <= 14
     pre: 0 <= s0 < 3 and 0 <= s1 < 3 and 0 <= s2 < 3 and 0 <= s3 < 3 and 0 <= s4 < 3 and 0 <= s5 < 3 and 0 <= s6 < 3
@@ -294,11 +304,12 @@ def h_suite(stream: int, nworkers: int, t0: int, t1: int, broken: int, fkind: in
         v["fkind"] = ch.sel("fkind", fkind, 4)
         v["fpos"] = ch.sel("fpos", fpos, 12) if v["fkind"] else 0
         dp = ch.sel("depth", depth, 15)
+        v["routes"] = ch.sel("routes", routes, 3) if v["stream"] else 0
     except ch.Prune:
         return True
     sv = [s0, s1, s2, s3, s4, s5, s6, s7, s8, s9, s10, s11, s12, s13][:dp]
     try:
-        o = run_suite(bool(v["stream"]), v["nworkers"], v["t0"], v["t1"], v["broken"], v["fkind"], v["fpos"], sv)
+        o = run_suite(bool(v["stream"]), v["nworkers"], v["t0"], v["t1"], v["broken"], v["fkind"], v["fpos"], sv, v["routes"])
     except ch.Prune:
         return True
     v["trace"] = tuple(o["trace"])
@@ -309,8 +320,11 @@ def h_suite(stream: int, nworkers: int, t0: int, t1: int, broken: int, fkind: in
 def _shards(tier):
     out = []
     if tier == "quick":
+        out.append(({"stream": 1, "nworkers": 2, "t0": 1, "t1": 1, "broken": 0, "fkind": 0, "depth": 6, "routes": 1}, 1800))
+        out.append(({"stream": 1, "nworkers": 2, "t0": 1, "t1": 1, "broken": 0, "fkind": 0, "depth": 6, "routes": 2}, 1800))
+        out.append(({"stream": 1, "nworkers": 2, "t0": 1, "t1": 0, "broken": 2, "fkind": 0, "depth": 6, "routes": 2}, 1800))
         for st in (0, 1):
-            out.append(({"stream": st, "nworkers": 2, "t0": 1, "t1": 1, "broken": 0, "fkind": 0, "depth": 8}, 1800))
+            out.append(({"stream": st, "nworkers": 2, "t0": 1, "t1": 1, "broken": 0, "fkind": 0, "depth": 8, "routes": 0}, 1800))
             out.append(({"stream": st, "nworkers": 2, "t0": 1, "t1": 0, "broken": 1, "fkind": 0, "depth": 7}, 1800))
             out.append(({"stream": st, "nworkers": 1, "t0": 2, "broken": 0, "fkind": 0, "depth": 8}, 1800))
             for fp in (0, 2, 3):
@@ -320,34 +334,39 @@ def _shards(tier):
             for fp in (0, 1):
                 out.append(({"stream": st, "nworkers": 2, "t0": 1, "t1": 1, "broken": 0, "fkind": 3, "fpos": fp, "depth": 6}, 1800))
     else:
+        for rt in (1, 2):
+            for br in range(3):
+                out.append(({"stream": 1, "nworkers": 2, "t0": 1, "t1": 1, "broken": br, "fkind": 0, "depth": 9, "routes": rt}, 3000))
         for st in (0, 1):
             for a in range(3):
                 for b in range(3):
                     for br in range(3):
-                        out.append(({"stream": st, "nworkers": 2, "t0": a, "t1": b, "broken": br, "fkind": 0, "depth": 10}, 3000))
+                        out.append(({"stream": st, "nworkers": 2, "t0": a, "t1": b, "broken": br, "fkind": 0, "depth": 10, "routes": 0}, 3000))
             for fk, rng in ((1, range(10)), (2, range(3)), (3, range(5))):
                 for fp in rng:
                     out.append(({"stream": st, "nworkers": 2, "t0": 1, "t1": 1, "broken": 0, "fkind": fk, "fpos": fp, "depth": 9}, 3000))
                     out.append(({"stream": st, "nworkers": 2, "t0": 2, "t1": 1, "broken": 2, "fkind": fk, "fpos": fp, "depth": 8}, 3000))
+    for fix, _t in out:
+        fix.setdefault("routes", 0)
     return out
 
 
 def _describe(*a):
     stream, nworkers, t0, t1, broken, fkind, fpos = a[:7]
-    depth = a[-1]
-    return run_suite(bool(stream), nworkers, t0, t1, broken, fkind, fpos, list(a[7:21])[:depth])
+    depth, routes = a[-2], a[-1]
+    return run_suite(bool(stream), nworkers, t0, t1, broken, fkind, fpos, list(a[7:21])[:depth], routes if stream else 0)
 
 
 HARNESSES = [
     Harness("suite", h_suite, _shards,
             bounds={"quick": "ConcurrentTestSuite and ConcurrentStreamTestSuite with threading/Queue replaced by scheduler-aware fakes; the "
                              "caller of run() is itself a scheduled thread. Symbolic schedule: the solver picks the next runnable thread at "
-                             "each of the first k choice points (k = 6..8). Configurations: 2 workers x 1 test each; a worker whose run() "
+                             "each of the first k choice points (k = 6..8). Configurations: 2 workers x 1 test each (stream suite also with both workers sharing one route code, a string or None); a worker whose run() "
                              "raises; 1 worker x 2 tests; faults: the caller's result raises at its call/event 0, 2, 3; make_tests raises "
                              "after yielding 0, 1, 2 sub-suites; KeyboardInterrupt out of the caller's 1st / 2nd queue.get()",
                     "thorough": "every (t0, t1, broken) in 0..2 x 0..2 x {none, worker 0, worker 1} with k = 10; every fault position with k = 8..9"},
             rule="one schedule per path; non-trivial = at least one point with more than one runnable thread",
-            twin_fix={"stream": 0, "nworkers": 2, "t0": 1, "t1": 1, "broken": 0, "fkind": 0, "depth": 3},
+            twin_fix={"stream": 0, "nworkers": 2, "t0": 1, "t1": 1, "broken": 0, "fkind": 0, "depth": 3, "routes": 0},
             describe=_describe,
             assumptions=["testtools.testsuite.threading / Queue are replaced by fakes with the same blocking contract; scheduling "
                          "points: Thread.start/join, Queue.put/get, Semaphore.acquire/release, every call on the caller's TestResult",
